@@ -328,6 +328,16 @@ example :
     lookup k (freshG2G isKern1 g) (freshG2G isKern2 g) ("A", "B") 0 = 2 ∧ specFind k g ("A", "B") 0 = 1 := by
   decide
 
+/-- boundary of the domain: the hypothesis `CacheOK` of `cache_transparent` is exactly what an edit
+that bypasses `Groups.Changed` destroys (`groups.pop`, or an edit while the caller holds/disables the
+object's notifications — not among the edits the property quantifies over): the lookup then answers
+from the stale table (5) although the current groups say 0 -/
+example :
+    let s := (run {} [.gset "public.kern1.A" ["A"], .kset ("public.kern1.A", "B") 5, .find ("A", "B") 0]).1
+    let s' := quietErase s "public.kern1.A"
+    (step s' (.find ("A", "B") 0)).2 = .int 5 ∧ specFind s'.c.kerning s'.c.groups ("A", "B") 0 = 0 ∧
+      s'.cache.g2g1 ≠ some (freshG2G isKern1 s'.c.groups) := by decide
+
 /-- a lazily loaded font whose groups.plist breaks the rule: the lookup raises, then sees an empty font -/
 example :
     (run {} [.openUfo [("public.kern1.X", ["A"]), ("public.kern1.Y", ["A"])] [(("A", "B"), 5)],
